@@ -157,7 +157,10 @@ def strategy(draw, tier="quick"):
         case["sample_width"] = draw(st.integers(1, 8))
         bounds = [4, 6, 256]
     case["ways"] = ways
-    case["history"] = draw(history({f"go{k}": bounds for k in range(ways)}, 3, hi))
+    # in one case of three an additional user method shares way 0 with the first one (two callers of one exclusive
+    # method of the metric: they are serialised and every executed call is counted)
+    case["shared"] = draw(st.integers(0, 2)) == 0
+    case["history"] = draw(history({f"go{k}": bounds for k in range(ways + int(case["shared"]))}, 3, hi))
     return case
 
 
@@ -187,6 +190,9 @@ def run_case(case) -> Result:
 
     kind, enabled, ways, width = case["kind"], case["enabled"], case["ways"], case["width"]
     res = Result(labels=[kind + ("" if enabled else "-disabled")])
+    nusers = ways + int(bool(case.get("shared")))  # user methods; the last one shares way 0 when "shared"
+    if nusers > ways:
+        res.labels.append("two_callers_of_way0")
 
     if kind == "counter":
         make = lambda: HwCounter("m.c", "", width_bits=width, ways=ways)  # noqa: E731
@@ -219,8 +225,8 @@ def run_case(case) -> Result:
 
         def __init__(self):
             self.metric = make()
-            self.go = Methods(ways, i=[("cond", 1)] + arg_layout(self.metric))
-            self.execs = [Signal(16, name=f"execs{k}") for k in range(ways)]
+            self.go = Methods(nusers, i=[("cond", 1)] + arg_layout(self.metric))
+            self.execs = [Signal(16, name=f"execs{k}") for k in range(nusers)]
 
         def elaborate(self, platform):
             m = TModule()
@@ -229,7 +235,7 @@ def run_case(case) -> Result:
             @def_methods(m, self.go)
             def _(k, arg):
                 m.d.sync += self.execs[k].eq(self.execs[k] + 1)
-                call(self.metric, k, m, arg)
+                call(self.metric, k if k < ways else 0, m, arg)
 
             return m
 
@@ -306,10 +312,10 @@ def run_case(case) -> Result:
 
     async def tb(ctx):
         ios = h.ios(["go"])
-        runs = [0] * ways
+        runs = [0] * nusers
         for cyc, rec in enumerate(case["history"]):
             reqs = {}
-            for k in range(ways):
+            for k in range(nusers):
                 a = rec.get(f"go{k}")
                 if a is None:
                     continue
@@ -322,10 +328,19 @@ def run_case(case) -> Result:
             results, execs = await step(ctx, ios, reqs, samples=())
             res.stats["cycles"] = res.stats.get("cycles", 0) + 1
             counted = []
-            for k in range(ways):
+            # (a disabled metric has no hardware at all: its methods are empty and shared freely, nobody waits)
+            group = ["go0", f"go{ways}"] if nusers > ways and enabled else []
+            greq = [n for n in group if n in reqs]
+            gacc = [n for n in group if results[n] is not None]
+            if group and (len(gacc) != (1 if greq else 0) or not set(gacc) <= set(greq)):
+                return res.fail(
+                    f"cycle {cyc}: the two callers of way 0: requested {greq}, ran {gacc} (exactly one of the requesters "
+                    "is served per cycle: the metric's methods are exclusive and never block)"
+                )
+            for k in range(nusers):
                 n = f"go{k}"
                 acc = results[n] is not None
-                if acc != (n in reqs):
+                if n not in group and acc != (n in reqs):
                     return res.fail(
                         f"cycle {cyc}: caller {n} requested={n in reqs} but ran={acc} (metric methods never block)"
                     )
